@@ -543,3 +543,11 @@ def h_rdiv(I, self, other):
 def x_logdep(I, self, cond):
     I.note_read(self)
     return new_expl(I, self.kind, self.value, self.label, left=self, right=cond, operator="logically dependent on")
+
+
+@spec("ehq", "__copy__")
+@spec("eo", "__copy__")
+def x_copy_base(I, self):
+    """ExplainableObject.__copy__ (inherited): a new object of the same class holding the same value, label and source, no parents"""
+    I.note_read(self)
+    return new_expl(I, self.kind, self.value, self.label, source=self.source)
